@@ -57,8 +57,9 @@ impl<'c, KD: Kind, const N: usize> MapEng<'c, KD, N> {
         {
             let Some(slot) = self.slots[w].as_mut() else { return };
             let cx = &mut *self.cx;
+            let pre_obs = Self::observe(&slot.c).unwrap_or_default();
             let before = slot.model.clone();
-            let n = before.len();
+            let n = if liar { pre_obs.len() } else { before.len() };
             let take = scale(b, n + 2);
             let end = (c as usize * 3) >> 7;
             cx.bump(S::drains);
@@ -123,10 +124,14 @@ impl<'c, KD: Kind, const N: usize> MapEng<'c, KD, N> {
                 2 => {
                     cx.bump(S::forgets);
                     std::mem::forget(d);
-                    for (k, e) in &before {
-                        if !yielded.iter().any(|y| y.raw == *k as i16) && KD::TRACKED {
-                            tl::ledger_mark_may_leak(e.kid);
-                            tl::ledger_mark_may_leak(e.vid);
+                    if KD::TRACKED {
+                        for o in &pre_obs {
+                            if !yielded.iter().any(|y| y.kid == o.kid) {
+                                tl::ledger_mark_may_leak(o.kid);
+                            }
+                            if !yielded.iter().any(|y| y.vid == o.vid) {
+                                tl::ledger_mark_may_leak(o.vid);
+                            }
                         }
                     }
                 }
@@ -466,8 +471,9 @@ impl<'c, KD: Kind, const N: usize> MapEng<'c, KD, N> {
             let Some(slot) = self.slots[w].as_mut() else { return };
             let cx = &mut *self.cx;
             let kind = scale(a, 3);
+            let pre_obs = Self::observe(&slot.c).unwrap_or_default();
             let before = std::mem::take(&mut slot.model);
-            let n = before.len();
+            let n = if liar { pre_obs.len() } else { before.len() };
             let take = scale(b, n + 2);
             let end = (c as usize * 3) >> 7;
             cx.bump(S::consumes);
@@ -546,7 +552,7 @@ impl<'c, KD: Kind, const N: usize> MapEng<'c, KD, N> {
                             cx.bump(S::forgets);
                             std::mem::forget(it);
                             if KD::TRACKED {
-                                for (_, e) in &before {
+                                for e in &pre_obs {
                                     // anything not handed out may stay alive forever
                                     let out_k = yielded.iter().any(|y| y.kid == e.kid);
                                     let out_v = yielded.iter().any(|y| y.vid == e.vid);
